@@ -173,3 +173,7 @@ def check(ctx: Ctx) -> None:
                                        "(IndexError in the receiver, waitclose() returns normally) than on the others")
             if not rs:
                 ob.violation(m, m.node, f"{cname}.read never raises EOFError")
+    # a transport whose write is not atomic w.r.t. concurrent senders garbles the stream under load (only on that transport)
+    from .C08 import check_atomic_write
+    check_atomic_write(ctx, "C16.g")
+
